@@ -202,7 +202,8 @@ func (g *progGen) printable() *tw.Expr {
 }
 
 // (A and B: names that differ from a and b only in the case of the first letter are different names)
-var assignNames = []string{"a", "b", "c", "A", "B"}
+// (... and names may be long: 63, 64 and 200 bytes)
+var assignNames = []string{"a", "b", "c", "A", "B", "n" + strings.Repeat("x", 62), "n" + strings.Repeat("y", 63), "long_" + strings.Repeat("name_", 39)}
 
 func (g *progGen) literalOf(k refint.Kind) *tw.Expr {
 	switch k {
